@@ -17,6 +17,9 @@ pub struct C15Case {
     /// presentations, possibly with the same number of disclosures)
     #[serde(default)]
     pub alt_chain: Vec<Value>,
+    /// key binding requested in the LAST step only (the presentations fed back never carry one)
+    #[serde(default)]
+    pub final_kb: Option<crate::sut::KbArgs>,
 }
 
 fn as_map(v: &Value) -> Map<String, Value> {
@@ -88,12 +91,17 @@ pub fn check(case: &C15Case, st: &mut Stats) -> Verdict {
 
     // direct
     let final_sel = as_map(case_chain.last().unwrap());
-    let direct = must_ok("create_presentation(direct)", sut::present(&issued_text, spec.fmt, &final_sel, None))?;
+    let final_kb = case.final_kb.as_ref().filter(|k| k.key == spec.holder && spec.holder.is_some());
+    if final_kb.is_some() {
+        st.label("final_step_key_bound");
+    }
+    let direct = must_ok("create_presentation(direct)", sut::present(&issued_text, spec.fmt, &final_sel, final_kb))?;
     // chain
     let mut cur = issued_text.clone();
     for (i, s) in case_chain.iter().enumerate() {
         let stage = format!("create_presentation(step {} of chain {})", i + 1, chain_no + 1);
-        cur = match sut::present(&cur, spec.fmt, &as_map(s), None) {
+        let kb_here = if i + 1 == case_chain.len() { final_kb } else { None };
+        cur = match sut::present(&cur, spec.fmt, &as_map(s), kb_here) {
             Out::Ok(p) => p,
             Out::Err(e) => {
                 return Err(Failure::new(
@@ -110,7 +118,7 @@ pub fn check(case: &C15Case, st: &mut Stats) -> Verdict {
         };
     }
     for (what, pres) in [("direct", &direct), ("chained", &cur)] {
-        match check_presentation(&issued, spec.fmt, &last.paths, pres, None) {
+        match check_presentation(&issued, spec.fmt, &last.paths, pres, final_kb) {
             Ok(_) => {}
             Err(f) if f.signature == "harness:void" => {
                 st.label("void:hidden_set_differs");
@@ -121,7 +129,7 @@ pub fn check(case: &C15Case, st: &mut Stats) -> Verdict {
     }
     let expected = expected_claims(&tree, &last.paths, spec.holder);
     for (what, pres) in [("direct", &direct), ("chained", &cur)] {
-        let got = must_ok(&format!("SDJWTVerifier::new({})", what), sut::verify(pres, spec.fmt, spec.alg, None))?;
+        let got = must_ok(&format!("SDJWTVerifier::new({})", what), sut::verify(pres, spec.fmt, spec.alg, final_kb.map(|k| (k.aud.as_str(), k.nonce.as_str()))))?;
         if got != expected {
             return Err(Failure::new(
                 format!("mismatch:{}", what),
